@@ -165,6 +165,7 @@ def run(ck):
     n2 = link.send_prologue(radio, agg, lite=True)
     n2b = link.send_outcome(radio, agg, lite=True)
     n2c = link.resend_rules(radio, agg, lite=True)
+    link.send_with_real_resend(radio, agg, lite=True)
     n2d = link.send_list(radio, agg)
     n8 = c08.run_for(ck, radio, agg, lite=True)
     n9 = load_ack(radio, agg)
